@@ -9,6 +9,7 @@ mod sync;
 mod mdline;
 mod verify;
 mod filter;
+mod cfg;
 
 fn dispatch(op: &str, arg: &Value) -> Result<Value, String> {
     match op {
@@ -17,6 +18,8 @@ fn dispatch(op: &str, arg: &Value) -> Result<Value, String> {
         "chash" => chash::op_chash(arg),
         "sync" => sync::op_sync(arg),
         "filter" => filter::op_filter(arg),
+        "cfgload" => cfg::op_cfgload(arg),
+        "cfgpath" => cfg::op_cfgpath(arg),
         "verify" => verify::op_verify(arg),
         "age" => verify::op_age(arg),
         "duration" => verify::op_duration(arg),
